@@ -1,5 +1,168 @@
-(* C16 - DelayedDestructor destroys late, once, and never under its own lock. *)
+(* C16 - DelayedDestructor destroys late, once, and never under its own lock
+   (and the dd_callback_throw clause of C20).
+   Statements only; every proof is `exact <lemma>` into Proofs/DelayedDestructorProofs.v.
+   All theorems quantify over the configuration c (locked class / single-thread class, callback or not, which
+   callback invocations throw), any number of threads with any programs over
+   {Add, Drop, DestroyObjects, DestroyObjectsDelay d, Size, DestroyContainer, Readd} whose element destructors and
+   callbacks re-enter the container (size / add / destroyObjects / destroyObjects(delay)), and every schedule
+   including lock time-outs (choice 2).  Vocabulary:
+     rc g o        use_count of object o            ext g o     client references (slots)
+     dcnt g o      destructor calls so far          cbc g o     callback calls so far
+     tot irefs o ls   references held by local vectors / parameters of all threads
+     tot idtor o ls   destructors of o about to run (the thread's next user-code step)
+     head_is s t i    the next instruction of thread t is i. *)
 From Coq Require Import List Arith ZArith Lia Bool.
 Import ListNotations.
 From GV Require Import Sched Events DelayedDestructorModel DelayedDestructorProofs.
-Local Open Scope Z_scope.
+
+(* ---------- destroyed once, late, not while owned ---------- *)
+Theorem dd_once : forall c progs s o, R c progs s -> dcnt (gl s) o <= 1.
+Proof. exact destroyed_once. Qed.
+
+(* when the destructor of o is about to run nobody owns o: no client slot, no vector entry, no local copy
+   in any thread; it has not run before and no other destructor call of o is pending *)
+Theorem dd_not_while_owned : forall c progs s t src o, R c progs s -> head_is s t (IDtor src o) ->
+  rc (gl s) o = 0 /\ ext (gl s) o = 0 /\ cnt o (vec (gl s)) = 0 /\ tot irefs o (thr s) = 0 /\
+  dcnt (gl s) o = 0 /\ tot idtor o (thr s) = 1.
+Proof. exact dtor_not_while_owned. Qed.
+Theorem dd_owned_not_destroyed : forall c progs s o, R c progs s -> ext (gl s) o >= 1 ->
+  dcnt (gl s) o = 0 /\ tot idtor o (thr s) = 0.
+Proof. exact client_owned_not_destroyed. Qed.
+
+(* once the container is destroyed, an object without client owner and without pending local reference
+   has been destroyed (or its destructor is the very next step of the releasing thread) *)
+Theorem dd_latest : forall c progs s o, R c progs s -> cstate (gl s) = 2 -> created (gl s) o = true ->
+  ext (gl s) o = 0 -> tot irefs o (thr s) = 0 -> dcnt (gl s) o + tot idtor o (thr s) = 1.
+Proof. exact destroyed_at_the_latest. Qed.
+Theorem dd_latest_done : forall c progs s o, R c progs s -> all_fin glob loc fin s = true -> cstate (gl s) = 2 ->
+  created (gl s) o = true -> ext (gl s) o = 0 -> dcnt (gl s) o = 1.
+Proof. exact destroyed_when_done. Qed.
+
+(* ---------- use_count is exact; nothing is lost or duplicated ---------- *)
+Theorem dd_use_count_exact : forall c progs s o, R c progs s ->
+  rc (gl s) o = cnt o (vec (gl s)) + ext (gl s) o + tot irefs o (thr s).
+Proof. exact use_count_exact. Qed.
+(* every push into the vector (with multiplicity: the same object may be added twice) is a vector entry, an entry
+   of some thread's local vector, or a reference the container has released *)
+Theorem dd_conservation : forall c progs s o, R c progs s ->
+  cnt o (addlog (gh (gl s))) = cnt o (vec (gl s)) + tot crefs o (thr s) + cnt o (rlog (gh (gl s))).
+Proof. exact conservation. Qed.
+(* ... and an object whose last reference is gone is destroyed: no leak *)
+Theorem dd_no_leak : forall c progs s o, R c progs s -> created (gl s) o = true -> rc (gl s) o = 0 ->
+  dcnt (gl s) o + tot idtor o (thr s) = 1.
+Proof. exact no_leak. Qed.
+(* an object selected by destroyObjects has left the vector, has no client owner, and is held by exactly the
+   selecting thread's local vector *)
+Theorem dd_reaped_is_local : forall c progs s o, R c progs s -> In o (reaped (gh (gl s))) ->
+  cnt o (vec (gl s)) = 0 /\ ext (gl s) o = 0 /\ tot arefs o (thr s) = 0 /\ rc (gl s) o <= 1.
+Proof. exact reaped_is_local. Qed.
+
+(* ---------- the callback ---------- *)
+Theorem dd_callback_once_before : forall c progs s t o, R c progs s -> hascb (cf (gl s)) = true ->
+  head_is s t (IDtor SRC_CLEAR o) -> cbc (gl s) o = 1.
+Proof. exact callback_once_before_dtor. Qed.
+Theorem dd_callback_at_most_once : forall c progs s o, R c progs s -> cbc (gl s) o <= 1.
+Proof. exact callback_at_most_once. Qed.
+Theorem dd_callback_only_reaped : forall c progs s o, R c progs s -> cbc (gl s) o >= 1 -> In o (reaped (gh (gl s))).
+Proof. exact callback_only_reaped. Qed.
+Theorem dd_callback_before_dtor : forall c progs s t o rest ec esz, R c progs s -> head_is s t (ICb o rest ec esz) ->
+  cbc (gl s) o = 0 /\ dcnt (gl s) o = 0 /\ tot idtor o (thr s) = 0 /\ rc (gl s) o = 1 /\ In o (reaped (gh (gl s))).
+Proof. exact callback_before_dtor. Qed.
+Theorem dd_no_callback_without_function : forall c progs s, R c progs s -> hascb (cf (gl s)) = false -> cblog (gh (gl s)) = [].
+Proof. exact no_callback_without_function. Qed.
+
+(* C20: a throwing callback is swallowed by destroyObjects(): the remaining callbacks of the batch are skipped (their
+   count stays 0), the complete local vector is still released (outside the lock, the thread does not own the mutex),
+   and the function returns elementSize; dd_once / dd_no_leak then give "destroyed exactly once" *)
+Theorem dd_callback_throw : forall c progs s t o rest ec esz cc r, R c progs s -> head_is s t (ICb o rest ec esz) ->
+  memn (ncb (gl s)) (throws (cf (gl s))) = true ->
+  exists g', exec t cc (gl s) r (ICb o rest ec esz) =
+             Some (g', r, [IClear SRC_UNWIND ec; ISetRv (zn esz)], [E K_CALL 0 (fid_cb o); E K_THROW 0 (zn (ncb (gl s)))]) /\
+             mtx g' = mtx (gl s) /\ mtx (gl s) <> Some t /\
+             incl (o :: rest) ec /\ (forall y, In y rest -> cbc g' y = 0) /\ (forall y, In y ec -> In y (reaped (gh g'))).
+Proof. exact callback_throw. Qed.
+
+(* ---------- user code runs outside the lock; re-entrancy is safe ---------- *)
+Theorem dd_user_code_outside_lock : forall c progs s t i, R c progs s -> head_is s t i -> is_user i = true ->
+  mtx (gl s) <> Some t.
+Proof. exact user_code_outside_lock. Qed.
+(* no self-deadlock: a thread never tries to acquire destructionLock while owning it, whatever its destructors and
+   callbacks call back into *)
+Theorem dd_reentrancy_safe : forall c progs s t i, R c progs s -> head_is s t i -> is_acquire i = true ->
+  mtx (gl s) <> Some t.
+Proof. exact never_relocks_own_mutex. Qed.
+Theorem dd_mutual_exclusion : forall c progs s t u, R c progs s -> locked (cf (gl s)) = true ->
+  holds (stk_of (thr s) t) = true -> holds (stk_of (thr s) u) = true -> t = u.
+Proof. exact mutual_exclusion. Qed.
+
+(* ---------- deadlock freedom ---------- *)
+Theorem dd_holder_moves : forall c progs s a cc, R c progs s -> mtx (gl s) = Some a -> enabled glob loc tstep s a cc.
+Proof. exact holder_enabled. Qed.
+Theorem dd_timed_completes : forall (s : sys glob loc) t i, head_is s t i -> is_timed i = true -> enabled glob loc tstep s t 2.
+Proof. exact timed_enabled. Qed.
+Theorem dd_blocked_shape : forall c progs s t l, R c progs s -> nth_error (thr s) t = Some l -> tstep t 0 (gl s) l = None ->
+  fin l = true \/
+  (exists i st a, stk l = i :: st /\ is_acquire i = true /\ mtx (gl s) = Some a /\ a <> t /\ enabled glob loc tstep s a 0) \/
+  (exists st, stk l = IDcGate :: st /\ busy (gl s) <> 1).
+Proof. exact blocked_shape. Qed.
+Theorem dd_deadlock_shape : forall c progs s t l, R c progs s -> quiescent glob loc tstep s -> nth_error (thr s) t = Some l ->
+  fin l = true \/ (exists st, stk l = IDcGate :: st /\ busy (gl s) <> 1).
+Proof. exact quiescent_shape. Qed.
+Theorem dd_gate_opens : forall c progs s t l st cc, R c progs s -> nth_error (thr s) t = Some l -> stk l = IDcGate :: st ->
+  list_sum (map wloc (thr s)) = 1 -> enabled glob loc tstep s t cc.
+Proof. exact gate_opens. Qed.
+Theorem dd_no_deadlock : forall c progs s, R c progs s -> quiescent glob loc tstep s ->
+  (forall t l st, nth_error (thr s) t = Some l -> stk l = IDcGate :: st ->
+     wloc l = 1 /\ forall u l', u <> t -> nth_error (thr s) u = Some l' -> ~ (exists st', stk l' = IDcGate :: st')) ->
+  all_fin glob loc fin s = true.
+Proof. exact no_deadlock. Qed.
+
+(* ---------- non-vacuity: the hypotheses are met by concrete reachable states ---------- *)
+Definition one (n : nat) : list (nat * nat) := repeat (0, 0)%nat n.
+Definition cfg_cb := Config true true [].
+Definition st_of c progs sc := run glob loc tstep (init c progs) sc.
+
+(* add one object and call destroyObjects(): after 6 steps the callback is the next step, after 7 the destructor *)
+Example ex_callback_next : head_is (st_of cfg_cb [[Add 0 0 0; DestroyObjects]] (one 6)) 0 (ICb 1 [] [1] 0).
+Proof. vm_compute. eexists; eexists; split; reflexivity. Qed.
+Example ex_dtor_next : head_is (st_of cfg_cb [[Add 0 0 0; DestroyObjects]] (one 7)) 0 (IDtor SRC_CLEAR 1).
+Proof. vm_compute. eexists; eexists; split; reflexivity. Qed.
+(* the first callback of a batch of two throws *)
+Example ex_throwing_callback :
+  let s := st_of (Config true true [0]) [[Add 0 0 0; Add 0 0 0; DestroyObjects]] (one 9) in
+  head_is s 0 (ICb 1 [2] [1; 2] 0) /\ memn (ncb (gl s)) (throws (cf (gl s))) = true.
+Proof. vm_compute. split; [eexists; eexists; split; reflexivity|reflexivity]. Qed.
+(* destructors and callbacks that re-enter (destroyObjects, size, add, destroyObjects(150ms)): everything finishes,
+   both objects are destroyed after their callback; the object added by a destructor is left in the vector *)
+Example ex_reentrant_run :
+  let s := st_of cfg_cb [[Add 0 3 1; Add 0 2 4; DestroyObjects; Size]] (one 80) in
+  all_fin glob loc fin s = true /\ dlog (gh (gl s)) = [2; 1] /\ cblog (gh (gl s)) = [2; 1] /\ vec (gl s) = [3].
+Proof. vm_compute. repeat split. Qed.
+(* the same object added twice: once its client owner is gone it has two vector entries and use_count 2, so
+   destroyObjects() never selects it (size stays 2) ... *)
+Example ex_double_add_not_reaped :
+  let s := st_of cfg_cb [[Add 1 0 0; Readd 1; Drop 1; DestroyObjects; Size]] (one 40) in
+  all_fin glob loc fin s = true /\ dlog (gh (gl s)) = [] /\ vec (gl s) = [1; 1] /\ rc (gl s) 1 = 2 /\
+  ext (gl s) 1 = 0 /\ rv (hd (Loc [] [] 0%Z) (thr s)) = 2%Z.
+Proof. vm_compute. repeat split. Qed.
+(* ... it is destroyed (once, without callback) only when the container is *)
+Example ex_double_add_destroyed_with_container :
+  let s := st_of cfg_cb [[Add 1 0 0; Readd 1; Drop 1; DestroyObjects; DestroyContainer]] (one 80) in
+  all_fin glob loc fin s = true /\ cstate (gl s) = 2 /\ dlog (gh (gl s)) = [1] /\ cblog (gh (gl s)) = [].
+Proof. vm_compute. repeat split. Qed.
+(* a thread blocked at the gate because another container operation is still to come *)
+Example ex_gate_waits :
+  let s := st_of cfg_cb [[DestroyContainer]; [Size]] (one 5) in
+  head_is s 0 IDcGate /\ busy (gl s) = 2.
+Proof. vm_compute. split; [eexists; eexists; split; reflexivity|reflexivity]. Qed.
+(* a timed acquisition facing a held mutex *)
+Example ex_timed_blocked :
+  let s := st_of cfg_cb [[DestroyObjects]; [Size]] [(1,0); (1,0); (0,0)]%nat in
+  head_is s 0 IDoTry /\ mtx (gl s) = Some 1 /\ tstep 0 0 (gl s) (Loc [] [IDoTry; IEndOp true] 0%Z) = None.
+Proof. vm_compute. split; [eexists; eexists; split; reflexivity|split; reflexivity]. Qed.
+(* the container is destroyed while a client still owns an object: it survives until the client drops it *)
+Example ex_survives_container :
+  let s := st_of cfg_cb [[Add 1 0 0; DestroyContainer]] (one 60) in
+  let s' := st_of cfg_cb [[Add 1 0 0; DestroyContainer; Drop 1]] (one 60) in
+  cstate (gl s) = 2 /\ dcnt (gl s) 1 = 0 /\ ext (gl s) 1 = 1 /\ dcnt (gl s') 1 = 1 /\ all_fin glob loc fin s' = true.
+Proof. vm_compute. repeat split. Qed.
